@@ -142,6 +142,10 @@ func init() {
 		r.runRedirects[strArg(a[0])] = c
 		return nil, actDone
 	})
+	reg(vrt+"SearchOnly", func(r *Run, g *G, a []Value) (Value, action) {
+		r.searchOnly = int(intArg(a[0]))
+		return nil, actDone
+	})
 	reg(vrt+"Thorough", func(r *Run, g *G, a []Value) (Value, action) { return r.eng.opts.Tier == "thorough", actDone })
 	// Quiesce lets every other goroutine run until none of them can make progress (no schedule
 	// exploration): used by harnesses to wait for fire-and-forget goroutines of the code under test.
